@@ -2116,6 +2116,20 @@ impl<'a> Searcher<'a> {
                 if no_value || no_number {
                     return matches!(op, Op::Ne | Op::Ene);
                 }
+
+                // the same for dates: an entry whose time cannot be read, or another column without a date in it
+                // (`modified > exif_datetime` for a file without EXIF data, `modified >= accessed` for an archive
+                // member) is neither before nor after anything; only a LITERAL that is no date is a mistake
+                let datetime_column = expr
+                    .left
+                    .as_ref()
+                    .and_then(|left| left.field)
+                    .is_some_and(|field| field.is_datetime_field());
+                if datetime_column || matches!(field_value.get_type(), VariantType::DateTime) {
+                    if field_value.to_string().is_empty() || !literal && !value.is_datetime() {
+                        return matches!(op, Op::Ne | Op::Ene);
+                    }
+                }
             }
 
             // pattern operators work on the text of any value (`size like '1%'`)
